@@ -113,6 +113,10 @@ type Case struct {
 	Samples   []Sample               `json:"samples"`
 	Frags     []FragSpec             `json:"frags"`
 	Styp      bool                   `json:"styp,omitempty"` // every fragment is a segment of its own that starts with styp
+	// Sidx: every segment starts (behind styp) with a sidx box of one reference; TopSidx: one sidx behind moov
+	// with a reference per segment
+	Sidx    bool `json:"sidx,omitempty"`
+	TopSidx bool `json:"topSidx,omitempty"`
 	// MoovExtra are appended to the children of moov (after mvex). Not combined with FragOpts.Base == 1
 	// (absolute offsets are not adjusted).
 	MoovExtra []Extra `json:"moovExtra,omitempty"`
@@ -227,7 +231,7 @@ func (c *Case) tracks(stsd []byte, data [][]byte) []fragbuild.Track {
 
 // layout builds the fragbuild layout; inTraf, when not nil, replaces the in-traf boxes per fragment.
 func (c *Case) layout(inTraf func(f int, own []fragbuild.ExtraBox) []fragbuild.ExtraBox) fragbuild.FileLayout {
-	lay := fragbuild.FileLayout{SeqStart: c.SeqStart}
+	lay := fragbuild.FileLayout{SeqStart: c.SeqStart, TopSidx: c.TopSidx}
 	conv := func(xs []Extra) []fragbuild.ExtraBox {
 		var out []fragbuild.ExtraBox
 		for _, x := range xs {
@@ -244,7 +248,7 @@ func (c *Case) layout(inTraf func(f int, own []fragbuild.ExtraBox) []fragbuild.E
 			fr.InTrafBoxes = inTraf(f, fr.InTrafBoxes)
 		}
 		if c.Styp || cur == nil {
-			lay.Segments = append(lay.Segments, fragbuild.Segment{Styp: c.Styp})
+			lay.Segments = append(lay.Segments, fragbuild.Segment{Styp: c.Styp, Sidx: c.Sidx})
 			cur = &lay.Segments[len(lay.Segments)-1]
 		}
 		cur.Frags = append(cur.Frags, fr)
